@@ -216,10 +216,11 @@ func checkC09(res *Result) {
 	res.Rule("C09-R3", "every Unlock (or defer Unlock) is of a key held on every path reaching it, and is not doubled by a deferred one")
 	res.Rule("C09-R4", "at every return / function end no lock remains that is not covered by a registered defer Unlock")
 	res.Rule("C09-R5", "every Database call other than Lock/Unlock/NewID is made with a lock held on every path")
-	res.Rule("C09-KEY", "lock identity is tracked by key expression; a key variable must not be reassigned while held")
+	res.Rule("C09-KEY", "lock identity is tracked by key expression; a key variable must not be reassigned while held, and the *url.URL a key points to is not written through (directly or by a function of pub it is handed to) in the function that locks it")
 	lr := runPubLocks(p)
 	res.Functions = lr.nUnits
 	addLockFindings(res, p, lr, map[string]string{"R1": "C09-R1", "R2": "C09-R2", "R3": "C09-R3", "R4": "C09-R4", "R5": "C09-R5", "KEY": "C09-KEY", "ENGINE": "C09-ENGINE"})
+	checkLockKeysNotMutated(res, p, computeEffects(p), "C09-KEY")
 	// interprocedural re-entry: a callee that locks, called while a lock is held
 	for _, rep := range lr.reports {
 		for _, f := range rep.findings {
